@@ -15,7 +15,6 @@ import (
 	"os"
 	"path/filepath"
 	"strings"
-	"testing/fstest"
 
 	goat "github.com/philhassey/goatlang"
 )
@@ -142,6 +141,7 @@ func runC07(c *Ctx) error {
 		src, mode string
 	}
 	var jobs []job
+	wantVals := []string{"6", "405", "12", "3", "3", "4", "103", "5.5", "248"} // the value of each corpus program's last variable
 	corpus := []string{
 		"func ok(a int) bool { return a > 0 }; func f(a int) int { x := 5; switch { case ok(a): x = 6 }; return x }; y := f(1)",
 		"var n = 0; func inc() int { n++; return n }; func f() int { i := 0; for inc(); i < 4; inc() { i++ }; return i*100 + n }; x := f()",
@@ -149,8 +149,29 @@ func runC07(c *Ctx) error {
 		"func g() (int, int) { return 1, 2 }; func f() int { a, _ := g(); _, b := g(); g(); return a + b }; x := f()",
 		"func f() int { r := 0; for i := 0; i < 3; i++ { switch i { case 7: r += 100; default: break }; r += 1 }; return r }; x := f()",
 		"func f() int { a := []int{1, 2, 3}; e := make([]int, 2); n := copy(e, a); copy(e, a[1:]); if copy(e, a) > 1 { n++ }; return n + e[0] }; x := f()",
+		"func count(rows [][]int) int { n := 0; for _, r := range rows { for _, x := range r { n += x } }; return n }; func outer() int { a, b, c, d := 10, 20, 30, 40; n := count([][]int{{1, 2}, nil}); return a + b + c + d + n }; x := outer()",
 		"const K = 3; func f(_ int, _ int, c ...float64) float64 { const k = K + 1; var b byte = 255; b += k; return c[0]/2 + float64(b) }; x := f(1, 2, 5)",
 		"type T struct { A int }; func (t *T) M(xs ...byte) byte { return xs[0] + 200 }; func f() int { t := &T{}; var a, b int = 1, 2; var p, q = t.M(100), t.M(1, 2); return a + b + int(p) + int(q) }; x := f()",
+	}
+	// callees with 0..6 leading locals that range over a nil slice / nil map after a non-nil one, called from a
+	// frame with eight live locals: the loop's hidden slots must stay inside the callee's frame
+	for kc := 0; kc <= 6; kc++ {
+		for _, nilv := range []string{"nil", "map"} {
+			var pre, sum []string
+			for j := 0; j < kc; j++ {
+				pre = append(pre, fmt.Sprintf("p%d := 1", j))
+				sum = append(sum, fmt.Sprintf(" + p%d", j))
+			}
+			body := "for i := 0; i < len(lists); i++ { for _, v := range lists[i] { n += v } }"
+			arg, typ := "[][]int{{1, 2}, nil}", "[][]int"
+			if nilv == "map" {
+				arg, typ = "[]map[string]int{{\"a\": 1, \"b\": 2}, nil}", "[]map[string]int"
+			}
+			src := fmt.Sprintf("func count(lists %s) int { %s; n := 0; %s; return n%s }; func outer() int { a0, a1, a2, a3, a4, a5, a6, a7 := 10, 20, 30, 40, 50, 60, 70, 80; s := count(%s); return a0 + a1 + a2 + a3 + a4 + a5 + a6 + a7 + s }; r := outer()",
+				typ, strings.Join(append([]string{"_ = 0"}, pre...), "; "), body, strings.Join(sum, ""), arg)
+			corpus = append(corpus, src)
+			wantVals = append(wantVals, fmt.Sprint(363+kc))
+		}
 	}
 	for _, s := range corpus {
 		jobs = append(jobs, job{s, "strict"})
@@ -229,15 +250,28 @@ func runC07(c *Ctx) error {
 			c.Rep.Violate(Violation{Kind: "correspondence", Cut: "compile->verify", Input: srcs[k], Impl: lines[k], Model: a, Note: "the verified checker rejects the code the compiler emitted"})
 		}
 	}
-	// statement-only programs leave no residual values
-	for _, s := range corpus {
+	// statement-only programs leave no residual values, and compute what Go computes (the value of their last
+	// top-level variable, worked out by hand: these programs exercise frames above a caller's locals)
+	for i, s := range corpus {
 		func() {
 			defer func() { recover() }()
-			vm := goat.New()
-			rets, err := vm.Eval(fstest.MapFS{}, "s", s)
-			c.Rep.Oracle["eval-residue"]++
-			if err == nil && len(rets) != 0 {
-				c.Rep.Violate(Violation{Kind: "oracle", Cut: "eval-residue", Input: s, Impl: fmt.Sprint(rets), Oracle: "no values"})
+			for _, opt := range []bool{true, false} {
+				vm := goat.New()
+				rets, err := vm.VerifEval(s, opt)
+				c.Rep.Oracle["eval-residue"]++
+				if err == nil && len(rets) != 0 {
+					c.Rep.Violate(Violation{Kind: "oracle", Cut: "eval-residue", Input: s, Impl: fmt.Sprint(rets), Oracle: "no values"})
+				}
+				name := strings.TrimSpace(s[strings.LastIndex(s, ";")+1:])
+				name = "main." + strings.TrimSpace(strings.SplitN(name, ":=", 2)[0])
+				c.Rep.Oracle["corpus-value"]++
+				got := "error: " + fmt.Sprint(err)
+				if err == nil {
+					got = vm.Get(name).String()
+				}
+				if i < len(wantVals) && got != wantVals[i] {
+					c.Rep.Violate(Violation{Kind: "oracle", Cut: "corpus-value", Input: fmt.Sprintf("optimize=%v %s", opt, s), Impl: name + " = " + got, Oracle: wantVals[i]})
+				}
 			}
 		}()
 	}
